@@ -1527,15 +1527,29 @@ fn check_ast_accessors(text: &str, lits: &[Lit], out: &mut Vec<Failure>) {
     }
 }
 
+fn flipped(w: &Want) -> Option<Want> {
+    Some(match w {
+        Want::Int(v, n) => Want::Int(*v, !*n),
+        Want::Float(v, n) => Want::Float(*v, !*n),
+        Want::TimingInt(v, u, n) => Want::TimingInt(*v, u, !*n),
+        Want::TimingFloat(v, u, n) => Want::TimingFloat(*v, u, !*n),
+        Want::ImagInt(v, n) => Want::ImagInt(*v, !*n),
+        Want::ImagFloat(v, n) => Want::ImagFloat(*v, !*n),
+        Want::Bits(_) | Want::Bool(_) => return None,
+    })
+}
+
 fn check_c10_batch(lits: &[Lit], context: usize, out: &mut Vec<Failure>) -> bool {
-    // contexts: 0 expression statement, 1 declaration initializer, 2 gate-call argument, 3 parenthesised
+    // contexts: 0 expression statement, 1 declaration initializer, 2 gate-call argument,
+    // 3 parenthesised, 4 a minus sign in front of the parenthesised literal (numeric classes)
     let mut text = String::new();
-    let ctxname = ["expr-stmt", "decl-init", "gate-argument", "parenthesised"][context];
+    let ctxname = ["expr-stmt", "decl-init", "gate-argument", "parenthesised", "minus-parenthesised"][context];
     for (i, l) in lits.iter().enumerate() {
         match context {
             0 => text.push_str(&format!("{};\n", l.spelling)),
             1 => text.push_str(&format!("{} v{i} = {};\n", decl_type_for(&l.want), l.spelling)),
             2 => text.push_str(&format!("U({}, 0, 0) $0;\n", l.spelling)),
+            4 if flipped(&l.want).is_some() => text.push_str(&format!("-({});\n", l.spelling)),
             _ => text.push_str(&format!("({});\n", l.spelling)),
         }
     }
@@ -1549,8 +1563,28 @@ fn check_c10_batch(lits: &[Lit], context: usize, out: &mut Vec<Failure>) -> bool
         return true;
     }
     for (l, s) in lits.iter().zip(stmts.iter()) {
+        if context == 4 && flipped(&l.want).is_some() {
+            // either a unary minus over the literal as written, or one literal of opposite sign
+            if let asg::Stmt::ExprStmt(e) = s {
+                let mut top = e;
+                while let asg::Expr::Cast(c) = top.expression() {
+                    top = c.operand();
+                }
+                match top.expression() {
+                    asg::Expr::UnaryExpr(u) if matches!(u.op(), asg::UnaryOp::Minus) => check_lit(l, find_literal(u.operand()), None, ctxname, &text, out),
+                    asg::Expr::Literal(lit) => {
+                        let l2 = Lit { spelling: l.spelling.clone(), want: flipped(&l.want).unwrap(), class: l.class };
+                        check_lit(&l2, Some(lit), None, ctxname, &text, out)
+                    }
+                    _ => check_lit(l, None, None, ctxname, &text, out),
+                }
+            } else {
+                check_lit(l, None, None, ctxname, &text, out);
+            }
+            continue;
+        }
         let (lit, ty) = match (context, s) {
-            (0, asg::Stmt::ExprStmt(e)) | (3, asg::Stmt::ExprStmt(e)) => (find_literal(e), Some(e.get_type().clone())),
+            (0, asg::Stmt::ExprStmt(e)) | (3, asg::Stmt::ExprStmt(e)) | (4, asg::Stmt::ExprStmt(e)) => (find_literal(e), Some(e.get_type().clone())),
             (1, asg::Stmt::DeclareClassical(d)) => (d.initializer().and_then(find_literal), d.initializer().map(|i| lit_type(i))),
             (2, asg::Stmt::GateCall(g)) => (g.params().and_then(|p| p.first()).and_then(find_literal), g.params().and_then(|p| p.first()).map(|p| lit_type(p))),
             _ => (None, None),
@@ -1592,7 +1626,7 @@ pub fn replay_c10(v: &serde_json::Value) -> Result<Vec<Failure>, String> {
 
 fn c10_case(src: &mut Src, out: &mut Vec<Failure>) -> (bool, Vec<Lit>) {
     let n = 1 + src.below(32);
-    let context = src.below(4);
+    let context = src.below(5);
     let lits: Vec<Lit> = (0..n).map(|_| gen_lit(src)).collect();
     (check_c10_batch(&lits, context, out), lits)
 }
@@ -1655,7 +1689,7 @@ pub fn run_c10(ctx: &RunCtx) {
     }
     let chunks: Vec<&[Lit]> = edges.chunks(24).collect();
     ctx.par_units(chunks.len(), |i, st| {
-        for context in 0..4 {
+        for context in 0..5 {
             let mut rep = CaseReport::default();
             let judged = check_c10_batch(chunks[i], context, &mut rep.failures);
             rep.discarded = !judged;
